@@ -57,8 +57,12 @@ class _TrioIdleCallbackInstrument(trio.abc.Instrument):
 
     def before_io_wait(self, timeout: float) -> None:
         if timeout > 0:
-            for idle_callback in self.idle_callbacks.values():
-                idle_callback()
+            # callbacks may add or remove idle callbacks: walk a snapshot of the handles and
+            # skip any that an earlier callback of this pass has removed
+            for handle in list(self.idle_callbacks):
+                idle_callback = self.idle_callbacks.get(handle)
+                if idle_callback is not None:
+                    idle_callback()
 
 
 class TrioEventLoop(EventLoop):
